@@ -324,6 +324,46 @@ func followerObservesLeaderRule(c *Ctx, rule string) {
 		c.viol(rule, "followers record the leader they observe", firstInstr(root), "no function outside the claim-set units stores %s: a follower never learns who leads", m.path(m.LeaderID))
 		return
 	}
+	// inside the recording function the store depends on nothing but the role: a comparison with a
+	// cache of "the leader seen last" that another writer of the leader id (the claim-set unit)
+	// does not maintain makes a record that names the same leader as before the instance's own
+	// term look unchanged - the follower then shows its own id for good
+	for _, f := range observe {
+		eachInstr(f, func(in ssa.Instruction) {
+			call, ok := in.(*ssa.Call)
+			if !ok {
+				return
+			}
+			if fld, _, ok := m.atomicStore(call); !ok || fld != m.LeaderID {
+				return
+			}
+			var foreign []string
+			for _, l := range append(append([]Lit{}, m.GuardsAt(in)...), m.controlCondsDeep(in, 0)...) {
+				if l.Derived && !strings.Contains(l.S.String(), m.ImplName+".") {
+					continue
+				}
+				str := l.S.String()
+				switch {
+				case m.isClaimLoadSym(l.S) || m.isClaimValueSym(l.S):
+				case strings.Contains(str, m.path(m.LeaderID)) || strings.Contains(str, m.path(m.State)) || strings.Contains(str, m.path(m.Ctx)):
+				case func() bool {
+					// only init-only fields are mentioned: the configuration, the store handle and the
+					// key (e.g. "the read succeeded", "not allowed to preempt")
+					rest := str
+					for _, immut := range []string{m.path(m.Cfg) + ".", m.path(m.KV), m.path(m.Key)} {
+						rest = strings.ReplaceAll(rest, immut, "")
+					}
+					return !strings.Contains(rest, m.ImplName+".")
+				}():
+				case !strings.Contains(str, m.ImplName+"."):
+					// a test of the arguments only
+				default:
+					foreign = append(foreign, l.String())
+				}
+			}
+			c.check(len(foreign) == 0, rule, "the observed leader is stored whenever the instance does not lead: "+shortFn(f), in, "conditions on other state of the election on the way to the store of %s: %v", m.path(m.LeaderID), foreign)
+		})
+	}
 	n := 0
 	for _, g := range sortedFns(m.staticReach(root, false)) {
 		eachInstr(g, func(in ssa.Instruction) {
